@@ -9,7 +9,11 @@ name=$(basename "$demo" .rs)
 out=$(cargo test --offline --no-fail-fast 2>&1)
 pass=$(echo "$out" | grep -E "^test result" | awk '{p+=$4; f+=$6} END {print p" "f}')
 demo_with=$(cargo test --offline --test "$name" 2>&1 | grep -E "^test result" | tail -1)
-git stash push -q -- src/ || exit 2
+# (no git stash: the stash is shared between all worktrees of a repository)
+git diff -- src/ > .verify_seed.diff
+[ -s .verify_seed.diff ] || { echo "$WT: no source change applied"; exit 2; }
+git apply -R .verify_seed.diff || exit 2
 demo_without=$(cargo test --offline --test "$name" 2>&1 | grep -E "^test result" | tail -1)
-git stash pop -q
+git apply .verify_seed.diff && rm -f .verify_seed.diff
+cmp -s <(git diff -- src/) _seed/patch.diff || echo "$WT: NOTE working-tree change differs from _seed/patch.diff"
 echo "$WT :: all tests (incl. demo) passed/failed: $pass :: demo WITH change: $demo_with :: demo WITHOUT change: $demo_without"
